@@ -11,7 +11,7 @@ git -C /repo worktree add -q $wt HEAD || exit 2
 git -C $wt apply /verif/seeded/$seed/patch.diff || { echo "$seed: patch does not apply"; git -C /repo worktree remove --force $wt; exit 2; }
 for c in $checks; do
   cd /verif
-  VERIF_REPO=$wt timeout 3600 ./bin/gosym check $c > /tmp/seed_${seed}_$c.log 2>&1
+  VERIF_REPO=$wt timeout 3600 ${GOSYM:-./bin/gosym} check $c > /tmp/seed_${seed}_$c.log 2>&1
   rc=$?
   nv=$(grep -c '^VIOLATION' /tmp/seed_${seed}_$c.log)
   echo "$seed check=$c rc=$rc violations=$nv mismatches=$(grep -c 'ENGINE-MISMATCH' /tmp/seed_${seed}_$c.log) inconclusive=$(grep -c '^INCONCLUSIVE' /tmp/seed_${seed}_$c.log) :: $(grep '^VIOLATION' /tmp/seed_${seed}_$c.log | sed 's/.*label=//' | head -3 | tr '\n' ' ' | cut -c1-300)"
